@@ -74,6 +74,18 @@ def gen(rng, tier):
                 first = ([off] if off else []) + [fault]
                 yield "tcp %s - %s,%s,%s,%s" % (OPTS, base, d("O", sends=first), d("O", sends=[3, "w"]), d("O"))
                 yield "tcp %s - %s,%s,%s,%s,%s" % (OPTS, base, d("O", sends=first), "q:%s" % hx(pdu(rng, 4)), d("O", sends=[1, 1, "w"]), d("O"))
+    # B2. a request sent in part (would-block), then the connection ends for a reason the SEND path does not see (peer close or
+    #     reset on the read side, POLLERR / POLLHUP, a poll error), then a new connection: it must carry the request from its start
+    for i in range(12 if not big else 120):
+        reqs = [pdu(rng, rng.choice([3, 5, 9, 20])) for _ in range(rng.randrange(1, 3))]
+        base = ",".join("q:%s" % hx(r) for r in reqs)
+        for off in range(1, len(reqs[0])):
+            if not big and len(reqs[0]) > 9 and rng.random() < 0.6:
+                continue
+            for end in (d("I", recvs=["z"]), d("I", recvs=["x"]), d("IO", recvs=["z"], sends=["w"]), d("E"), d("H"), d("IOH"),
+                        d("I", recvs=[1, "z"])):
+                yield "tcp %s %s %s,%s,%s,%s,%s" % (OPTS, hx(pdu(rng, 6)) if "1.z" in end else "-", base, d("O", sends=[off, "w"]),
+                                                    end, d("O"), d("O"))
     # C. mixed schedules with faults, timeouts, refused connections, clock
     for i in range(500 if not big else 8000):
         opts = "%d:%d:%d:%d" % (rng.choice([0, 1, 5, 10]), rng.choice([0, 1, 5, 10, 10]), rng.choice([1, 2, 3, 1000]), rng.choice([1, 1, 2]))
@@ -144,7 +156,8 @@ CONFIG.engines = [Engine("c14", ["exec_c14.c"], "drv_c14", gen), Engine("c14b", 
 CONFIG.rule = ("the real dispatch() of net_tcp_async.c on a scripted socket (libc calls of that translation unit redirected by macros): "
                "server streams of 1..12 PDUs (2..65539 bytes) with EVERY split point (one cut; two cuts for streams <= 24 bytes) for "
                "short streams and random chunkings (1 byte .. larger than the buffer) for long ones; 1..4 queued requests with a partial "
-               "send / would-block / error at EVERY byte offset, followed by reconnects; random mixed schedules with poll timeouts and "
+               "send / would-block / error at EVERY byte offset, followed by reconnects; a partial send followed by an end of the "
+               "connection seen on the read / poll side (peer close, reset, POLLERR, POLLHUP) at every offset, then a new connection; random mixed schedules with poll timeouts and "
                "errors, POLLHUP, refused connections, peer close/reset, connect and send timeouts (incl. 0), per-round limits, clock. "
                "Compared per case: every dispatch status, bytes per connection, PDUs delivered in order, buffer fill, every request's "
                "state and sent count. Distinct by op line. The handed-up PDUs are taken through the client's own getResponse; the bytes each connection delivered are reported and the PDUs must be first complete elements of each connection in turn.")
